@@ -332,6 +332,9 @@ def table_cases(chk):
     # deviations of the current code that the table must reach
     core.append(dict(prior="failed", generator=1, strict=0, restat=0, nouts=1, outs=["fresh"], e2="src_old", imp="none", oo="none", k0=0))
     core.append(dict(prior="ok", generator=0, strict=0, restat=0, nouts=1, outs=["fresh"], e2="missing", imp="none", oo="none", k0=0))
+    for gen in (0, 1):
+        core.append(dict(prior="ok_rewired", generator=gen, strict=0, restat=0, nouts=1, outs=["untouched"], e2="src_old", imp="src_new", oo="none", k0=0))
+        core.append(dict(prior="ok_rewired", generator=gen, strict=0, restat=0, nouts=1, outs=["untouched"], e2="src_old", imp="src_old", oo="src_new", k0=0))
     extra = []
     for _ in range(chk.n(150, 3000)):
         nouts = rng.choice([1, 1, 2])
@@ -340,7 +343,7 @@ def table_cases(chk):
                           imp=rng.choice(IMP_KINDS), oo=rng.choice(OO_KINDS), k0=rng.choice([0, 0, 1])))
     if chk.quick():
         # the quick tier keeps the named cases and a stratified half of the systematic core
-        keep = [c for i, c in enumerate(core) if i % 2 == 0 or c["prior"] == "failed" or c["e2"] == "missing"]
+        keep = [c for i, c in enumerate(core) if i % 2 == 0 or c["prior"] in ("failed", "ok_rewired") or c["e2"] == "missing"]
         core = keep
     seen, cases = set(), []
     for c in core + extra:
